@@ -1106,7 +1106,13 @@ enum cc_stat cc_deque_iter_remove(CC_DequeIter *iter, void **out)
  */
 enum cc_stat cc_deque_iter_add(CC_DequeIter *iter, void *element)
 {
-    enum cc_stat status = cc_deque_add_at(iter->deque, element, iter->index);
+    enum cc_stat status;
+
+    if (iter->index == iter->deque->size)
+        status = cc_deque_add_last(iter->deque, element);
+    else
+        status = cc_deque_add_at(iter->deque, element, iter->index);
+
     if (status == CC_OK)
         iter->index++;
 
